@@ -38,7 +38,7 @@ def main(pid, tier, seed):
     rdirs = []
     for k in range(10 if tier == 'quick' else 120):
         d = os.path.join(work, 'r%d' % k)
-        desc = expand.rich_ruleset(rng, d) if k % 2 == 0 else ptq.random_float_ruleset(rng, d)
+        desc = expand.tie_group_ruleset(rng, d) if k % 3 == 0 else (expand.rich_ruleset(rng, d) if k % 3 == 1 else ptq.random_float_ruleset(rng, d))
         rdirs.append((d, desc))
     cli_jobs = []
     for d, desc in rdirs:
